@@ -349,6 +349,7 @@ def run_ids(case, preempt_at=(), count_lines=False):
         multi.Lock = real_lock
     atexit.unregister(group._cleanup_atexit)
     got, errors = [], []
+    s.reg_spans = []  # (id, scheduler step at entry, at exit) of every _register call that succeeded
 
     def worker(i, explicit):
         try:
@@ -360,8 +361,10 @@ def run_ids(case, preempt_at=(), count_lines=False):
                 return
             got.append((i, spec.id))
             # what makegateway does next: register the new gateway under that id
+            t0 = s.steps
             try:
                 group._register(_FakeGateway(spec.id))
+                s.reg_spans.append((spec.id, t0, s.steps))
             except AssertionError:
                 errors.append(("register-refused-duplicate", spec.id))
         except D.Abort:
@@ -386,7 +389,13 @@ def judge_ids(case, s, group, got, errors):
         raise Violation("ids.duplicate-auto-id", f"concurrent allocate_id handed out {sorted(auto)}")
     live = [g.id for g in group]
     if len(set(live)) != len(live):
-        kind = "explicit-vs-auto" if any(ex is not None for ex in case["threads"]) else "auto-only"
+        dup = sorted(i for i in set(live) if live.count(i) > 1)[0]
+        asked = sum(1 for ex in case["threads"] if ex == dup)
+        kind = "explicit-vs-explicit" if asked >= 2 else "explicit-vs-auto" if asked == 1 else "auto-only"
+        spans = sorted((a, b) for i, a, b in getattr(s, "reg_spans", ()) if i == dup)
+        if any(spans[k][1] < spans[k + 1][0] for k in range(len(spans) - 1)):
+            # one registration had completely finished before the next one began: no race inside _register can explain it
+            kind += "/registrations-not-overlapping"
         raise Violation("ids.duplicate-live-id", f"group members {live} (threads {case['threads']})", site=kind)
     n_auto = sum(1 for ex in case["threads"] if ex is None)
     explicit = {ex for ex in case["threads"] if ex is not None}
